@@ -43,7 +43,11 @@ class LoopCtx:
 
     def early_exits(self):
         """Blocks of the loop, other than its `next()` test, that can leave the loop (break / return / `?`)."""
-        return sorted(b for b in self.blocks if b != self.sw and any(x not in self.blocks for x in self.it.succs.get(b, [])))
+        blocks = self.it.body.blocks
+
+        def leaves(x):      # the `otherwise` arm of an exhaustive match is an `unreachable` block, not an exit
+            return x not in self.blocks and blocks[x]['term']['k'] != 'unreachable'
+        return sorted(b for b in self.blocks if b != self.sw and any(leaves(x) for x in self.it.succs.get(b, [])))
 
     def inner(self, rc):
         return rc._reach(self.start, {self.head})
